@@ -3,7 +3,9 @@
 // Universe: keys {0..4}, every key at most twice in the heap (so <= 10 elements, three tree levels for
 // arity <= 2, two levels above).  Key type = lifetime-tracked TKey (see c13_common.hpp).
 // Comparators: std::less<TKey>, std::greater<TKey>, TableCmp (reads an external priority table that the
-// driver owns; 5 table presets incl. ties and "all equal").
+// driver owns; 5 table presets incl. ties and "all equal"; because under the all-equal table every arrangement
+// is a heap and switching tables multiplies the reachable arrangements, the table configurations push only
+// while the heap holds fewer than 7 (quick: 5) elements).
 // Ops (mutating): push(const&) / push(&&) for every key below the multiplicity cap, pop(), extract_top(),
 //   clear(), update_all() (plain, and — table comparator — after switching to another priority table: the
 //   table change and the update_all() it requires are ONE op, so the heap is never driven in the
@@ -22,6 +24,8 @@
 
 #include <algorithm>
 #include <list>
+
+#include <unordered_map>
 
 #include "c13_common.hpp"
 
@@ -81,8 +85,9 @@ struct DarySys {
     static const bool kTable = CmpKind == 2;
 
     size_t full_size;  // build_heap from every list of length <= 3 in states with size() <= full_size
+    size_t max_size;   // push only while size() < max_size (10 = no extra bound; the table configurations use less)
     int ntables;
-    explicit DarySys(size_t fs, int nt = D_NTABLES) : full_size(fs), ntables(nt) {}
+    DarySys(size_t fs, size_t ms, int nt) : full_size(fs), max_size(ms), ntables(nt) {}
 
     struct State {
         Ctx ctx;
@@ -91,6 +96,7 @@ struct DarySys {
         std::unique_ptr<Heap> heap;
         int cnt[D_NK] = {0, 0, 0, 0, 0};
         size_t n = 0;
+        size_t steps = 0;
         State() {
             g_ctx = &ctx;
             for (int i = 0; i < D_NK; ++i) table[i] = kDaryTables[0][i];
@@ -106,13 +112,23 @@ struct DarySys {
         }
     };
 
-    std::string name() { return vh::fmt("DAryHeap<a%u,%s>", Arity, CmpSel<CmpKind>::nm()); }
+    std::string name_;
+    const std::string& name() {
+        if (name_.empty()) name_ = vh::fmt("DAryHeap<a%u,%s>", Arity, CmpSel<CmpKind>::nm());
+        return name_;
+    }
     std::unique_ptr<State> fresh() { return std::unique_ptr<State>(new State()); }
 
     enum Kind { PUSH_COPY = 1, PUSH_MOVE, POP, EXTRACT, CLEAR, UPDATE_ALL, RETABLE, BUILD_VEC, BUILD_ITER, BUILD_MOVE };
     static uint32_t enc(int k, unsigned arg = 0) { return ((uint32_t)k << 12) | arg; }
 
+    std::unordered_map<uint32_t, std::string> name_cache_;
     std::string op_name(uint32_t op) {
+        auto it = name_cache_.find(op);
+        if (it != name_cache_.end()) return it->second;
+        return name_cache_[op] = op_name_uncached(op);
+    }
+    std::string op_name_uncached(uint32_t op) {
         unsigned k = op >> 12, a = op & 4095;
         switch (k) {
         case PUSH_COPY: return vh::fmt("DAryHeap.push(const& %u)", a);
@@ -136,10 +152,11 @@ struct DarySys {
         return true;
     }
 
+    std::vector<uint32_t> build_menu_[2];
     std::vector<uint32_t> ops(const State& s) {
         std::vector<uint32_t> r;
         for (int k = 0; k < D_NK; ++k)
-            if (s.cnt[k] < D_MAXMULT) {
+            if (s.cnt[k] < D_MAXMULT && s.n < max_size) {
                 r.push_back(enc(PUSH_COPY, k));
                 r.push_back(enc(PUSH_MOVE, k));
             }
@@ -152,13 +169,17 @@ struct DarySys {
         if (kTable)
             for (int t = 0; t < ntables; ++t)
                 if (t != s.table_id) r.push_back(enc(RETABLE, t));
-        unsigned nl = num_lists(D_NK, s.n <= full_size ? 3 : 1);
-        for (unsigned c = 0; c < nl; ++c) {
-            if (!list_ok(decode_list(c, D_NK))) continue;
-            r.push_back(enc(BUILD_VEC, c));
-            r.push_back(enc(BUILD_ITER, c));
-            r.push_back(enc(BUILD_MOVE, c));
+        std::vector<uint32_t>& menu = build_menu_[s.n <= full_size ? 1 : 0];
+        if (menu.empty()) {
+            unsigned nl = num_lists(D_NK, s.n <= full_size ? 3 : 1);
+            for (unsigned c = 0; c < nl; ++c) {
+                if (!list_ok(decode_list(c, D_NK))) continue;
+                menu.push_back(enc(BUILD_VEC, c));
+                menu.push_back(enc(BUILD_ITER, c));
+                menu.push_back(enc(BUILD_MOVE, c));
+            }
         }
+        r.insert(r.end(), menu.begin(), menu.end());
         return r;
     }
 
@@ -193,17 +214,28 @@ struct DarySys {
     // all cheap queries + structure, after every transition
     void check_queries(State& s) {
         Heap& h = *s.heap;
-        if (h.size() != s.n) vh::fail_here("size", vh::fmt("size()=%zu, model %s", h.size(), model_str(s).c_str()));
-        if (h.empty() != (s.n == 0)) vh::fail_here("empty", vh::fmt("empty()=%d, model %s", (int)h.empty(), model_str(s).c_str()));
+        if (h.size() != s.n) {
+            vh::fail_here("size", vh::fmt("size()=%zu, model %s", h.size(), model_str(s).c_str()));
+            return;
+        }
+        if (h.empty() != (s.n == 0)) {
+            vh::fail_here("empty", vh::fmt("empty()=%d, model %s", (int)h.empty(), model_str(s).c_str()));
+            return;
+        }
         int mp = 0;
         bool any = min_prio(s, &mp);
         if (any && !h.empty()) {
             const TKey& t = h.top();
             int v = t.val();
-            if (v < 0 || v >= D_NK || !s.cnt[v] || prio(s, v) != mp)
+            if (v < 0 || v >= D_NK || !s.cnt[v] || prio(s, v) != mp) {
                 vh::fail_here("top", vh::fmt("top()=%d is not a minimum-priority element of %s (array %s)", v, model_str(s).c_str(), array_str(s).c_str()));
+                return;
+            }
         }
-        if (!h.sanity_check()) vh::fail_here("sanity_check", vh::fmt("sanity_check() false, array %s", array_str(s).c_str()));
+        if (!h.sanity_check()) {
+            vh::fail_here("sanity_check", vh::fmt("sanity_check() false, array %s", array_str(s).c_str()));
+            return;
+        }
         // structure (private members): permutation of the model multiset, heap order, no dead/moved-from slot
         int c[D_NK] = {0, 0, 0, 0, 0};
         bool perm = h.heap_.size() == s.n, alive = true;
@@ -214,19 +246,31 @@ struct DarySys {
         }
         for (int k = 0; k < D_NK; ++k)
             if (c[k] != s.cnt[k]) perm = false;
-        if (!alive) vh::fail_here("element-lifetime", vh::fmt("array holds a moved-from/destroyed element: %s", array_str(s).c_str()));
-        else if (!perm) vh::fail_here("contents", vh::fmt("array %s is not a permutation of the model %s", array_str(s).c_str(), model_str(s).c_str()));
+        if (!alive) {
+            vh::fail_here("element-lifetime", vh::fmt("array holds a moved-from/destroyed element: %s", array_str(s).c_str()));
+            return;
+        }
+        else if (!perm) {
+            vh::fail_here("contents", vh::fmt("array %s is not a permutation of the model %s", array_str(s).c_str(), model_str(s).c_str()));
+            return;
+        }
         else {
             for (size_t i = 1; i < h.heap_.size(); ++i) {
                 size_t p = (i - 1) / Arity;
                 if (prio(s, h.heap_[i].v) < prio(s, h.heap_[p].v)) {
                     vh::fail_here("heap-order", vh::fmt("slot %zu (key %d) precedes its parent slot %zu (key %d): %s", i, h.heap_[i].v, p, h.heap_[p].v, array_str(s).c_str()));
-                    break;
+                    return;
                 }
             }
         }
-        if (s.ctx.misuse) vh::fail_here("element-lifetime", s.ctx.first_misuse);
-        if (s.ctx.live != (long)s.n) vh::fail_here("live-elements", vh::fmt("%ld elements alive, model holds %zu", s.ctx.live, s.n));
+        if (s.ctx.misuse) {
+            vh::fail_here("element-lifetime", s.ctx.first_misuse);
+            return;
+        }
+        if (s.ctx.live != (long)s.n) {
+            vh::fail_here("live-elements", vh::fmt("%ld elements alive, model holds %zu", s.ctx.live, s.n));
+            return;
+        }
     }
 
     void apply(State& s, uint32_t op) {
@@ -279,7 +323,7 @@ struct DarySys {
             h.update_all();
             break;
         case BUILD_VEC: {
-            std::vector<int> l = decode_list(a, D_NK);
+            const std::vector<int>& l = decode_list(a, D_NK);
             {
                 std::vector<TKey> keys;
                 for (int x : l) keys.emplace_back(x);
@@ -292,7 +336,7 @@ struct DarySys {
             break;
         }
         case BUILD_ITER: {
-            std::vector<int> l = decode_list(a, D_NK);
+            const std::vector<int>& l = decode_list(a, D_NK);
             {
                 std::list<TKey> keys;
                 for (int x : l) keys.emplace_back(x);
@@ -302,7 +346,7 @@ struct DarySys {
             break;
         }
         case BUILD_MOVE: {
-            std::vector<int> l = decode_list(a, D_NK);
+            const std::vector<int>& l = decode_list(a, D_NK);
             {
                 std::vector<TKey> keys;
                 for (int x : l) keys.emplace_back(x);
@@ -312,7 +356,7 @@ struct DarySys {
             break;
         }
         }
-        check_queries(s);
+        if (is_last_op_of_published_history(++s.steps)) check_queries(s);
     }
 
     void observe(State& s) {
@@ -366,9 +410,16 @@ struct DarySys {
 };
 
 template <unsigned Arity, int CmpKind>
-void add_dary(std::vector<Config>& out, bool thorough, bool in_quick, double cost) {
+void add_dary(std::vector<Config>& out, bool thorough, bool in_quick) {
     if (!thorough && !in_quick) return;
-    auto sys = std::make_shared<DarySys<Arity, CmpKind>>(thorough ? 4 : 2, thorough ? 5 : 4);
+    // measured CPU seconds per configuration (arity 1..8), used for shard balancing only
+    static const double t_plain[9] = {0, 0.6, 2.7, 5.3, 9, 11, 15, 19, 25}, t_table[9] = {0, 22, 27, 32, 37, 39, 42, 44, 46};
+    static const double q_plain[9] = {0, 0.2, 1.7, 4, 6.3, 8, 10, 12, 14}, q_table[9] = {0, 2.3, 2.7, 3.1, 3.5, 4, 4, 4, 4};
+    double cost = thorough ? (CmpKind == 2 ? t_table : t_plain)[Arity] : (CmpKind == 2 ? q_table : q_plain)[Arity];
+    // less/greater: the full universe (<= 10 elements).  Table comparator: switching tables multiplies the reachable
+    // arrangements (under the all-equal table every arrangement is a heap), so the size is capped instead.
+    size_t ms = CmpKind == 2 ? (size_t)vh::args().opt_int("tsize", thorough ? 7 : 5) : 10;
+    auto sys = std::make_shared<DarySys<Arity, CmpKind>>(thorough ? 4 : 2, ms, (int)vh::args().opt_int("ntables", D_NTABLES));
     vhist::Options opt;  // closure
     out.push_back(make_config(sys, cost, opt,
                               sys->name() + ": e.g. push(&& 3) push(const& 1) build_heap(first,last [4 0 4]) push(&& 0) extract_top() "
